@@ -686,16 +686,54 @@ func RuleKInferAll(c *core.Ctx) {
 		return
 	}
 	n := 0
+	judge := func(fn *ssa.Function, call *ssa.Call) { kInferAllJudge(c, rule, &n, fn, call) }
 	for _, fn := range p.SrcFuncs() {
 		if !strings.HasPrefix(core.PkgPathOf(fn), core.Module+"/cmd") {
 			continue
 		}
 		core.EachInstr(fn, func(ins ssa.Instruction) {
 			call, ok := ins.(*ssa.Call)
-			if !ok || call.Call.StaticCallee() != infer {
+			if !ok {
 				return
 			}
-			n++
+			if call.Call.StaticCallee() != infer {
+				// Model.Infer handed as a function value to a helper of the commands that
+				// applies it (forEachTransaction(file, model.Infer)): the applications of
+				// that parameter inside the helper are the call sites
+				h := call.Call.StaticCallee()
+				if h == nil || h.Blocks == nil || !strings.HasPrefix(core.PkgPathOf(h), core.Module+"/cmd") {
+					return
+				}
+				for i, a := range call.Call.Args {
+					f := core.FuncValue(a)
+					if f == nil || (f != infer && core.OriginOf(f) != infer && !strings.HasPrefix(f.Name(), "Infer$bound")) || i >= len(h.Params) {
+						continue
+					}
+					if f != infer && !reachesFunc(p, f, infer, 0) {
+						continue
+					}
+					prm := h.Params[i]
+					core.EachInstr(h, func(hi ssa.Instruction) {
+						hc, ok := hi.(*ssa.Call)
+						if !ok || hc.Call.Value != ssa.Value(prm) {
+							return
+						}
+						judge(h, hc)
+					})
+				}
+				return
+			}
+			judge(fn, call)
+		})
+	}
+	c.Floor(rule, 1)
+}
+
+func kInferAllJudge(c *core.Ctx, rule string, n *int, fn *ssa.Function, call *ssa.Call) {
+	p := c.P
+	{
+		{
+			*n++
 			key := core.FuncName(fn) + ":every transaction of the target reaches Model.Infer"
 			var body map[*ssa.BasicBlock]bool
 			var header *ssa.BasicBlock
@@ -746,7 +784,6 @@ func RuleKInferAll(c *core.Ctx) {
 			} else {
 				c.Ob(rule, key, call.Pos(), core.FuncName(fn), core.Violated, bad+": some placeholder bookings of the target are never offered a replacement")
 			}
-		})
+		}
 	}
-	c.Floor(rule, 1)
 }
